@@ -34,7 +34,8 @@ func c01Clients(r gen.R, known []uint32) []memClient {
 		if i%4 == 3 {
 			addr = ""
 		}
-		cfgs[0].Devices = append(cfgs[0].Devices, DevCfg{ID: id, Name: fmt.Sprintf("dev%d", i), Addr: addr, Proto: protos[i%4], NewDevice: i%2 == 0})
+		// (each configured controller has a time zone of its own: neither requests nor results depend on it)
+		cfgs[0].Devices = append(cfgs[0].Devices, DevCfg{ID: id, Name: fmt.Sprintf("dev%d", i), Addr: addr, Proto: protos[i%4], NewDevice: i%2 == 0, TZ: []string{"Pacific/Auckland", "America/New_York", "Asia/Kolkata"}[i%3]})
 	}
 	out := []memClient{}
 	for _, cfg := range cfgs {
